@@ -48,6 +48,8 @@ HYPOTHESES = {
     "H-TIME": "timestamps handed to poll() and durations derived from them stay far from the i64/u64 microsecond range (|t| < 2^61 us ~ 73,000 years)",
     "H-TXBUF": "every ProfibusPhy hands a transmit buffer of at least 256 bytes to transmit_data (true of all in-tree PHYs; support: thorough tier)",
     "H-PDU": "PDUs requested by applications respect the DP limits (Set_Prm user parameters <= 237 bytes, Chk_Cfg / process images <= 244 bytes)",
+    "I-TXRESP": "internal invariant: TelegramTxResponse.bytes_sent <= 255 (support: every TelegramTxResponse::new call in the reachable set passes a "
+                "value the numeric analysis bounds by 255 - the return value of a serialize function)",
     "H-APPS": "the application list passed to poll_multi() is not changed while the station is online (documented on poll_multi: `may lead to ... panics`)",
 }
 
@@ -64,6 +66,8 @@ TYPE_INVARIANTS = [
     (re.compile(r"^&(mut )?('\w+ )?fdl::active::FdlActiveStation$"), ("deref", "p"), PARAM_FIELDS, PARAM_RELS, "H-PARAM"),
     (re.compile(r"^fdl::telegram::TelegramTx<'\w+>$"), (), [("len", ("buf",), 256, 2 ** 63 - 1)], [], "H-TXBUF"),
     (re.compile(r"^&(mut )?('\w+ )?dp::peripheral::Peripheral<'\w+>$"), ("deref",), PERIPH_FIELDS, [], "H-PDU"),
+    (re.compile(r"^fdl::telegram::TelegramTxResponse$"), (), [("v", ("bytes_sent",), 0, 255)], [], "I-TXRESP"),
+    (re.compile(r"^std::option::Option<fdl::telegram::TelegramTxResponse>$"), ("<Some>", "0"), [("v", ("bytes_sent",), 0, 255)], [], "I-TXRESP"),
 ]
 
 # higher-order contracts: callee suffix -> (index of the length argument, index of the closure argument, closure parameter holding the buffer)
@@ -109,7 +113,7 @@ class Numeric:
         self._ret_stack.add(callee)
         res = None
         try:
-            na = NumAnalysis(g, self.P, ret_summary=self.ret_of)
+            na = NumAnalysis(g, self.P, ret_summary=self.ret_of, partition_discr=True, max_disj=48)
             lo, hi = INF, -INF
             v0 = ("v", 0, ())
             for rb in g.return_blocks:
@@ -166,17 +170,7 @@ class Numeric:
         def hook(na, st):
             for l in range(1, f.argc + 1):
                 ty = f.locals[l]["ty"]
-                for rx, base, fields, rels, hname in TYPE_INVARIANTS:
-                    if rx.match(ty):
-                        used.add(hname)
-                        for kind, path, lo, hi in fields:
-                            pr = proj_of(base + path)
-                            if kind == "len":
-                                while pr and pr[-1] == ("deref",):
-                                    pr = pr[:-1]
-                            st.z.set_interval((kind, l, pr), lo, hi)
-                        for pa, pb, c in rels:
-                            st.z.add(("v", l, proj_of(base + pa)), ("v", l, proj_of(base + pb)), c)
+                self.apply_type_inv(st, l, ty, used)
                 h = hyp.get(l)
                 if h is not None:
                     kind, lo, hi = h
@@ -192,6 +186,19 @@ class Numeric:
                     st.z.add(bl, cv, dhi)
                     st.z.add(cv, bl, -dlo)
         return hook
+
+    def apply_type_inv(self, st, l, ty, used):
+        for rx, base, fields, rels, hname in TYPE_INVARIANTS:
+            if rx.match(ty):
+                used.add(hname)
+                for kind, path, lo, hi in fields:
+                    pr = proj_of(base + path)
+                    if kind == "len":
+                        while pr and pr[-1] == ("deref",):
+                            pr = pr[:-1]
+                    st.z.set_interval((kind, l, pr), lo, hi)
+                for pa, pb, c in rels:
+                    st.z.add(("v", l, proj_of(base + pa)), ("v", l, proj_of(base + pb)), c)
 
     def run(self):
         pos = {n: i for i, n in enumerate(self.order)}
@@ -211,7 +218,9 @@ class Numeric:
             if n in self.no_hyp:
                 self.arg_hyp.pop(n, None)
             try:
-                na = NumAnalysis(f, self.P, entry_hook=self.hook_for(f), partition_discr=True, max_disj=48, ret_summary=self.ret_of)
+                used = self.used_hyps.setdefault(f.name, set())
+                na = NumAnalysis(f, self.P, entry_hook=self.hook_for(f), partition_discr=True, max_disj=48, ret_summary=self.ret_of,
+                                 local_inv=lambda na_, st_, l_, ty_, used=used: self.apply_type_inv(st_, l_, ty_, used))
             except Exception as e:  # fail closed at the sites of this function
                 self.na[n] = e
                 continue
@@ -386,10 +395,23 @@ def check(ctx):
         if f.name.endswith("FdlActiveStation::next_gap_poll"):
             delegated[f.name] = ("C12.a", ok12)
 
-    # ---- T: typestate contexts
+    # ---- T: typestate contexts (only those reachable from poll_inner started in a state of the invariant)
     ip, inv, muts = fdlstate.station_analysis(P)
+    pollf = [m for m in muts if m.name.endswith("::poll_inner")]
+    ctx.anchor("poll_inner", len(pollf), 1)
+    rootcx = [ip.analyze(pollf[0], [e]) for e in inv] if pollf else []
+    cxs, stack = [], [c for c in rootcx if c is not None]
+    seen_cx = set()
+    while stack:
+        cx = stack.pop()
+        if id(cx) in seen_cx:
+            continue
+        seen_cx.add(id(cx))
+        cxs.append(cx)
+        for _, sub in cx.sub:
+            stack.append(sub)
     visited, flagged = {}, {}
-    for cx in ip.contexts:
+    for cx in cxs:
         v = visited.setdefault(cx.fn.name, set())
         for b, S in cx.ga.entry.items():
             if S:
@@ -397,8 +419,36 @@ def check(ctx):
         for p in cx.panics:
             if p["fn"].name == cx.fn.name:
                 flagged.setdefault((cx.fn.name, p["b"]), p)
-    ctx.anchor("interprocedural contexts of the station analysis", len(ip.contexts), 300)
+    ctx.anchor("interprocedural contexts reachable from poll_inner", len(cxs), 200)
     ctx.anchor("atoms of the FdlActiveStation invariant", len(inv), 10)
+    # functions never entered by the typestate analysis although every caller is covered by it: unreachable
+    direct = {}
+    for f in fns:
+        d = set()
+        for b, c in call_sites(f):
+            if c.get("via") in ("direct", "trait_impl", "trait_default") and P.get(CR, c.get("callee") or "") is not None:
+                d.add(c["callee"])
+        direct[f.name] = d
+    preds = {}
+    for f in fns:
+        for m in cg.edges.get(f.name, ()):
+            preds.setdefault(m, set()).add(f.name)
+    tun = {f.name for f in fns if f.name not in visited and f.name not in ROOTS}
+    changed = True
+    while changed:
+        changed = False
+        for n in sorted(tun):
+            ok = bool(preds.get(n))
+            for p_ in preds.get(n, ()):
+                if p_ not in reach:
+                    continue
+                if not (p_ in visited or p_ in tun) or n not in direct.get(p_, ()):
+                    if not (p_ in tun):
+                        ok = False
+            if not ok:
+                tun.discard(n)
+                changed = True
+    ctx.notes.append("functions unreachable in the typestate analysis (all callers covered, never entered): %d, e.g. %s" % (len(tun), sorted(tun)[:5]))
 
     # ---- N: numeric
     num = Numeric(P, cg, reach)
@@ -436,7 +486,7 @@ def check(ctx):
                 nm, okd = delegated[f.name]
                 how = "D" if okd else None
                 detail = "delegated clause %s failed" % nm
-            elif f.name in visited and b not in visited[f.name]:
+            elif (f.name in visited and b not in visited[f.name]) or f.name in tun:
                 how = "T"
             if how is None and isinstance(na, NumAnalysis):
                 obs = byb.get(b)
@@ -483,6 +533,17 @@ def check(ctx):
 
 # residual table: (function suffix, site kind, detail regex or None) -> hypothesis
 RESIDUAL = [
+    ("<time::Instant as std::ops::Add<time::Duration>>::add", "assert", r"Overflow\(Add\)", "H-TIME"),
+    ("<time::Instant as std::ops::Sub>::sub", "assert", r"Overflow\(Sub\)", "H-TIME"),
+    ("<time::Instant as std::ops::Sub<time::Duration>>::sub", "assert", r"Overflow\(Sub\)", "H-TIME"),
+    ("<time::Instant as std::ops::SubAssign<time::Duration>>::sub_assign", "assert", r"Overflow\(Sub\)", "H-TIME"),
+    ("<time::Instant as std::ops::AddAssign<time::Duration>>::add_assign", "assert", r"Overflow\(Add\)", "H-TIME"),
+    ("<time::Duration as std::ops::Mul<u32>>::mul", "assert", r"Overflow\(Mul\)", "H-TIME"),
+    ("<time::Duration as std::ops::Add>::add", "assert", r"Overflow\(Add\)", "H-TIME"),
+    # H-APPS: `apps[self.next_application]` and the round-robin increment
+    ("fdl::active::FdlActiveStation::apps_transmit_telegram", "assert", r"BoundsCheck", "H-APPS"),
+    ("fdl::active::FdlActiveStation::do_await_data_response", "assert", r"BoundsCheck", "H-APPS"),
+    ("fdl::active::FdlActiveStation::schedule_next_application", "assert", r"Overflow\(Add\)", "H-APPS"),
 ]
 
 
